@@ -152,6 +152,17 @@ mut('factory-narrowed-switch', 'File.cpp', [["    switch (type) {\n    case Obje
 mut('skip-without-drop', 'File.cpp', [["        m_uncompressedFile.seekg(ohb.objectSize, std::ios_base::cur);\n\n        /* drop old data */\n        m_uncompressedFile.dropOldData();\n        return;", "        m_uncompressedFile.seekg(ohb.objectSize, std::ios_base::cur);\n        return;"]],
     ['C12'], ['P3|File::uncompressedFile2ReadWriteQueue'], 'a stretch of unknown objects keeps every inflated container in memory')
 
+mut('mode-recorded-early', 'File.cpp', [["    /* check */\n    if (is_open())\n        return;\n\n    /* try to open file */", "    m_openMode = mode;\n\n    /* check */\n    if (is_open())\n        return;\n\n    /* try to open file */"],
+                                          ["    if (!m_compressedFile.is_open())\n        return;\n    m_openMode = mode;\n", "    if (!m_compressedFile.is_open())\n        return;\n"]],
+    ['C13'], ['O3|open|mode-recorded'], 'an ignored second open() changes the mode close() dispatches on')
+mut('loop-exit-on-filesize', 'File.cpp', [["            file->uncompressedFile2CompressedFile();\n\n            /* check for eof */\n            if (!file->m_uncompressedFile.good())", "            file->uncompressedFile2CompressedFile();\n\n            /* check for eof */\n            if (!file->m_uncompressedFile.good() || (file->m_uncompressedFile.tellg() >= file->m_uncompressedFile.fileSize()))"]],
+    ['C07'], ['K11|File::compressedFileWriteThread'], 'trailing empty container written or not depending on which worker runs first')
+mut('unsigned-buffer-size', 'UncompressedFile.h', [["    std::streamsize m_bufferSize {std::numeric_limits<std::streamsize>::max()};", "    std::size_t m_bufferSize {std::numeric_limits<std::size_t>::max()};"]],
+    ['C06', 'C10'], ['K2u|UncompressedFile::write'], 'header-only type change makes the admission test unsigned')
+mut('resync-eof-last-branch', 'ObjectHeaderBase.cpp', [["\t\t\t\t\tif (is.eof()) {\n\t\t\t\t\t\tthrow Exception(\"ObjectHeaderBase::read(): End of File.\");\n\t\t\t\t\t}\n\n", ""],
+                                                        ["\t\t\t\t\t\t/* do not seek as we did not find a single char */\n", "\t\t\t\t\t\t/* do not seek as we did not find a single char */\n\t\t\t\t\t\tif (is.eof()) {\n\t\t\t\t\t\t\tthrow Exception(\"ObjectHeaderBase::read(): End of File.\");\n\t\t\t\t\t\t}\n"]],
+    ['C10', 'C09'], ['S1|loop|eof-every-retry'], 'input ending in a partial signature makes the worker spin')
+
 # ------------------------------------------------------------------ benign refactorings (must stay silent)
 ALL_LAYOUT = ['C01', 'C02', 'C03', 'C10', 'C14']
 ben('reorder-size-terms', 'AppText.cpp', [["        sizeof(source) +\n        sizeof(reservedAppText1) +", "        sizeof(reservedAppText1) +\n        sizeof(source) +"]], ALL_LAYOUT)
